@@ -15,10 +15,13 @@ RULE = ("ipcp/lcp/v6: ProcessConfReq called directly; every option list of lengt
         "structured alphabet (implemented + unknown types, data lengths 0,1,2,3,4,5,6,8,9,253, values assigned / zero / "
         "local / near-miss / other) against every configuration class (assigned nil / 4-byte / 16-byte mapped / 0.0.0.0 / "
         "IPv6; DNS default / nil / set; magic 0 / set; interface-id zero / set), plus random lists of up to 40 options and "
-        "several requests per instance (sticky peer state). fsm: the real FSM with the real handler in every state 0..9, "
+        "several requests per instance (sticky peer state). hi/hl/h6: histories on ONE real IPCP/LCP/IPv6CP object — "
+        "ProcessConfReq interleaved with ProcessConfAck/Nak/Rej (rejection / re-valuation of each of our options) and "
+        "SetPeerAddress/SetDNS/SetAddress/SetMagic/SetMRU/SetAuthProto/SetInterfaceID — every history of length <= 3 over "
+        "a 9..16-symbol op alphabet plus random ones up to length 12; BuildConfReq printed after every non-request step. fsm: the real FSM with the real handler in every state 0..9, "
         "Input(ConfReq) with serialized structured lists, random bytes, truncations, bad length bytes, trailing byte; "
         "emitted packets decoded by an independent decoder. sess: real SessionState (initPPP, extractIPFromAttributes, "
-        "startNCP, onIPCPUp) with AAA address none / usable / 0.0.0.0 / IPv6 and random histories of subscriber "
+        "startNCP, onIPCPUp, re-authentication = both run again on the same session) with AAA address none / usable / 0.0.0.0 / IPv6 and random histories of subscriber "
         "Configure-Requests and Configure-Ack/Nak/Reject answers to the BNG's own request (verbatim and forged); session address and ipcpOpen after every event. Non-trivial: at least "
         "one option classified (direct), a packet emitted (fsm), IPCP reached Opened (sess). Distinct: by case text.")
 TRUSTED = ["bytes are modelled as N; the harness feeds 0..255 only",
@@ -193,6 +196,65 @@ def gen_cases(rng, tier, budget):
                         os.append(opt(rng.choice([1, 1, 1, rng.randrange(256)]), rhex(rng, rng.choice([0, 7, 8, 8, 8, 9, rng.randrange(254)]))))
                 reqs.append(olist(os))
             cases.append("v6 %s %s" % (loc, " ".join(reqs)))
+    # ---- histories on one protocol object: requests interleaved with answers to our own request and with
+    #      configuration changes (exhaustive short histories + random long ones)
+    A, B = ASSIGNED, "0a000009"
+    hi_ops = ["q" + opt(3, A), "q" + opt(3, B), "q" + opt(3, "00000000"), "q-", "q" + opt(129, "00000000"),
+              "q" + opt(3, A) + "," + opt(3, B), "a" + opt(3, B), "n" + opt(3, B) + "," + opt(129, "01010101"),
+              "j" + opt(3, A) + "," + opt(129, "08080808"), "j" + opt(131, ""), "P" + A, "P" + B, "Pn",
+              "P" + MAPPED + B, "D01010101/n", "L" + B]
+    M1, M2 = 0xdeadbeef, 0x01020304
+    hl_ops = ["q" + opt(5, "%08x" % M1), "q" + opt(5, "%08x" % M2), "q" + opt(5, "00000000"),
+              "q" + opt(3, "c22305") + "," + opt(1, "05d4"), "q" + opt(3, "c22381"), "j" + opt(5, "%08x" % M1),
+              "j" + opt(1, "05d4") + "," + opt(3, "c22305"), "n" + opt(5, "%08x" % M2), "a" + opt(5, "%08x" % M2),
+              "n" + opt(3, "c023") + "," + opt(1, "0200"), "n" + opt(5, "00000000"), "M%d" % M2, "M0", "T49699/5", "U1400"]
+    L1, L2 = "5054fffe112233aa", "0200000000000002"
+    h6_ops = ["q" + opt(1, L1), "q" + opt(1, L2), "q" + opt(1, "00" * 8), "n" + opt(1, L2), "a" + opt(1, L2),
+              "n" + opt(1, "00" * 8), "j" + opt(1, L1), "I" + L2, "I" + "00" * 8]
+    HL = 3
+    for n in range(1, HL + 1):
+        for t in itertools.product(hi_ops, repeat=n):
+            if any(x[0] == "q" for x in t):
+                cases.append("hi %s d d %s" % (A, " ".join(t)))
+        for t in itertools.product(hl_ops, repeat=n):
+            if any(x[0] == "q" for x in t):
+                cases.append("hl %d %s" % (M1, " ".join(t)))
+        for t in itertools.product(h6_ops, repeat=n):
+            if any(x[0] == "q" for x in t):
+                cases.append("h6 %s %s" % (L1, " ".join(t)))
+    nhist = (budget or 900) if quick else (budget or 15000)
+    for i in range(nhist):
+        k = i % 3
+        ln = rng.choice([4, 5, 6, 8, 12])
+        if k == 0:
+            pa, d1, d2, _ = rng.choice(IPCP_CFGS)
+            ops = []
+            for _ in range(ln):
+                if rng.random() < 0.75:
+                    ops.append(rng.choice(hi_ops))
+                else:
+                    ops.append(rng.choice("qanj") + olist([rng.choice(IPCP_ALPHA[:-1]) for _ in range(rng.randrange(0, 4))]))
+            cases.append("hi %s %s %s %s" % (pa, d1, d2, " ".join(ops)))
+        elif k == 1:
+            m = rng.choice([M1, M1, 0, 1])
+            alpha = lcp_alpha(m)[:-1]
+            ops = []
+            for _ in range(ln):
+                if rng.random() < 0.75:
+                    ops.append(rng.choice(hl_ops))
+                else:
+                    ops.append(rng.choice("qanj") + olist([rng.choice(alpha) for _ in range(rng.randrange(0, 4))]))
+            cases.append("hl %d %s" % (m, " ".join(ops)))
+        else:
+            loc = rng.choice([L1, L1, "00" * 8])
+            alpha = v6_alpha(loc)[:-1]
+            ops = []
+            for _ in range(ln):
+                if rng.random() < 0.75:
+                    ops.append(rng.choice(h6_ops))
+                else:
+                    ops.append(rng.choice("qanj") + olist([rng.choice(alpha) for _ in range(rng.randrange(0, 3))]))
+            cases.append("h6 %s %s" % (loc, " ".join(ops)))
     # ---- FSM level: every state, well-formed and malformed wire data
     nfsm = (budget or 1200) if quick else (budget or 20000)
     for i in range(nfsm):
@@ -239,9 +301,18 @@ def gen_cases(rng, tier, budget):
                 [opt(2, "002d0f01"), opt(3, assigned)], [opt(3, assigned[:6])], [opt(3, assigned), opt(3, "0a000006")],
                 [opt(3, "0a000006"), opt(3, assigned)], [opt(129, "08080808"), opt(131, "08080404")]]
         evs = []
+        reauth = i % 3 == 0
         for _ in range(rng.choice([1, 2, 3, 4, 6, 10])):
             r = rng.random()
-            if r < 0.3:
+            if reauth and r < 0.12:
+                # re-authentication with another (or no, or an unusable) AAA address on the same session
+                na = rng.choice([MAPPED + "0a000009", MAPPED + "0a000009", MAPPED + ASSIGNED, "none"] +
+                                (bad_aaas if i % 8 == 7 else []))
+                evs.append("R" + na)
+                if na != "none" and na not in bad_aaas:
+                    assigned = na[-8:]
+                    reqs = reqs + [[opt(3, assigned)], [opt(3, assigned)], [opt(3, assigned), opt(129, "08080808")]]
+            elif r < 0.3:
                 evs.append("k")
             elif r < 0.42:
                 # the subscriber's answer to OUR request: tries to talk us into other values
@@ -255,6 +326,11 @@ def gen_cases(rng, tier, budget):
                 if rng.random() < 0.1:
                     w = mutate_wire(rng, w)
                 evs.append("q%d.%s" % (rng.randrange(256), w))
+        if reauth and i % 6 == 0 and aaa not in bad_aaas and aaa != "none":
+            # the pattern that exposes remembered peer state: negotiate, re-authenticate to another address, renegotiate
+            a0 = aaa[-8:]
+            evs = ["q1." + wire([opt(3, a0)]), "k", "R" + MAPPED + "0a000009",
+                   "q2." + wire(rng.choice([[], [opt(3, a0)], [opt(129, "08080808")], [opt(3, "0a000009")]])), "k"] + evs[:3]
         cases.append("sess %s %s" % (aaa, " ".join(evs)))
     return cases
 
@@ -378,6 +454,56 @@ def _monitor(case, impl, out):
                         hit("IPv6CP acknowledged unimplemented or malformed option %d.%s" % (t, d))
                     if d == "00" * 8 or d == local:
                         hit("IPv6CP acknowledged interface identifier %s (zero or its own)" % d)
+        elif f[0] in ("hi", "hl", "h6"):
+            # the configuration in force is tracked here independently of the model
+            nhead = 4 if f[0] == "hi" else 2
+            cur = to4(f[1]) if f[0] == "hi" else (int(f[1]) if f[0] == "hl" else f[1])
+            outs = impl.split(" ; ")[0].split(" | ")
+            for op, o in zip(f[nhead:], outs):
+                k, arg = op[0], op[1:]
+                if f[0] == "hi":
+                    if k == "P":
+                        cur = to4(arg)
+                    if k != "q":
+                        continue
+                    usable = cur is not None and cur != "00000000"
+                    ack, nak, rej = parse_results(o)[0]
+                    for t, d in ack:
+                        if t == 3 and usable and d != cur:
+                            hit("IPCP acknowledged address %s while %s is assigned (history)" % (d, cur))
+                        if t == 3 and d == "00000000":
+                            hit("IPCP acknowledged 0.0.0.0 (history)")
+                    for t, d in parse_opts(arg):
+                        if t == 3 and len(d) == 8 and usable and d != cur and (3, cur) not in nak:
+                            hit("IPCP did not Nak proposal %s with the assigned address %s (history)" % (d, cur))
+                elif f[0] == "hl":
+                    if k == "M":
+                        cur = int(arg)
+                    if k in "an":
+                        for t, d in parse_opts(arg):
+                            if t == 5 and len(d) == 8:
+                                cur = int(d, 16)
+                    if k != "q":
+                        continue
+                    ack, nak, rej = parse_results(o)[0]
+                    for t, d in ack:
+                        if t == 5 and cur != 0 and len(d) == 8 and int(d, 16) == cur:
+                            hit("LCP acknowledged its own magic number %s (history)" % d)
+                        if t == 3 and not (d[:4] == "c023" or d == "c22305"):
+                            hit("LCP acknowledged authentication protocol %s which it does not support" % d, "auth")
+                else:
+                    if k == "I":
+                        cur = arg
+                    if k in "an":
+                        for t, d in parse_opts(arg):
+                            if t == 1 and len(d) == 16:
+                                cur = d
+                    if k != "q":
+                        continue
+                    ack, nak, rej = parse_results(o)[0]
+                    for t, d in ack:
+                        if t != 1 or len(d) != 16 or d == "00" * 8 or d == cur:
+                            hit("IPv6CP acknowledged %d.%s (zero, own or malformed; history)" % (t, d))
         elif f[0] == "fsm":
             acts = impl.split(" ; ")[0].split()
             for a in acts:
@@ -418,8 +544,15 @@ def _monitor(case, impl, out):
             if pa is None or pa in ("nil", "h00000000") or len(pa) != 9:
                 hit("startNCP left the session without a usable assigned address (pa=%s)" % pa, "aaa")
                 return          # everything after that is a consequence
+            seen_pa = set()
             for ev, p in zip(f[2:], parts[1:]):
                 toks = p.split()
+                kv0 = dict(x.split("=", 1) for x in toks if "=" in x)
+                seen_pa.add(pa)
+                pa = kv0.get("pa", pa)
+                if pa in ("nil", "h00000000") or len(pa) != 9:
+                    hit("startNCP left the session without a usable assigned address (pa=%s)" % pa, "aaa")
+                    return
                 if ev[0] == "q":
                     req = parse_wire(ev.split(".", 1)[1])
                     for a in toks:
@@ -430,7 +563,7 @@ def _monitor(case, impl, out):
                 kv = dict(x.split("=", 1) for x in toks if "=" in x)
                 if kv.get("a") != pa:
                     hit("session address %s differs from the assigned address %s" % (kv.get("a"), pa),
-                        "adopt" if kv.get("a") == "nil" else None)
+                        "adopt" if (kv.get("a") == "nil" or kv.get("a") in seen_pa) else None)
                 for a in toks:
                     if a.startswith("sca:"):
                         for t, d in parse_opts(a.split(":", 2)[2]):
@@ -476,6 +609,10 @@ def signature(case, impl, models):
     f = case.split()
     if impl == models.get("def_auth") and (f[0] == "lcp" or (f[0] == "fsm" and f[1] == "l")):
         return "lcp-acks-chap-with-unsupported-algorithm"
+    if f[0] == "hi" and impl == models.get("def_adopt"):
+        return "ipcp-up-without-address-option-adopts-nil"
+    if f[0] == "hl" and impl == models.get("def_auth"):
+        return "lcp-acks-chap-with-unsupported-algorithm"
     if f[0] == "sess":
         if impl == models.get("def_adopt"):
             return "ipcp-up-without-address-option-adopts-nil"
@@ -490,6 +627,8 @@ def nontrivial(case, out):
     k = case.split(" ", 1)[0]
     if k in ("ipcp", "lcp", "v6"):
         return "A=- N=- R=-" != out.split(" ; ")[0]
+    if k in ("hi", "hl", "h6"):
+        return "A=" in out and len(case.split()) > (5 if k == "hi" else 3)
     if k == "fsm":
         return not out.startswith("- ;")
     return "up=1" in out
@@ -512,6 +651,17 @@ def shrink(case):
                 t, d = o.split(".", 1)
                 if len(d) > 16:
                     yield " ".join(head + reqs[:i] + [olist(os[:j] + [t + "." + d[:16]] + os[j + 1:])] + reqs[i + 1:])
+    elif k in ("hi", "hl", "h6"):
+        n = 4 if k == "hi" else 2
+        head, ops = f[:n], f[n:]
+        for i in range(len(ops)):
+            if len(ops) > 1:
+                yield " ".join(head + ops[:i] + ops[i + 1:])
+        for i, op in enumerate(ops):
+            if op[0] in "qanj" and "," in op:
+                os = op[1:].split(",")
+                for j in range(len(os)):
+                    yield " ".join(head + ops[:i] + [op[0] + olist(os[:j] + os[j + 1:])] + ops[i + 1:])
     elif k == "fsm":
         w = f[-1]
         if w != "-":
@@ -534,7 +684,7 @@ def shrink(case):
 
 
 def distribution(cases, impl):
-    d = {"ipcp": 0, "lcp": 0, "v6": 0, "fsm": 0, "sess": 0, "options_classified": 0, "acked": 0, "nakked": 0,
+    d = {"ipcp": 0, "lcp": 0, "v6": 0, "hi": 0, "hl": 0, "h6": 0, "history_ops": 0, "sess_reauth": 0, "fsm": 0, "sess": 0, "options_classified": 0, "acked": 0, "nakked": 0,
          "rejected": 0, "fsm_sca": 0, "fsm_scn": 0, "fsm_scj": 0, "fsm_silent": 0, "sess_opened": 0,
          "max_options_in_request": 0, "panic_or_hang": 0}
     for c, o in zip(cases, impl):
@@ -555,6 +705,8 @@ def distribution(cases, impl):
                     d["max_options_in_request"] = max(d["max_options_in_request"], len(a) + len(n) + len(r))
             except Exception:
                 pass
+        elif k in ("hi", "hl", "h6"):
+            d["history_ops"] += len(c.split()) - (4 if k == "hi" else 2)
         elif k == "fsm":
             a = o.split(" ; ")[0]
             d["fsm_sca"] += "sca:" in a
@@ -563,4 +715,5 @@ def distribution(cases, impl):
             d["fsm_silent"] += a == "-"
         else:
             d["sess_opened"] += "up=1" in o
+            d["sess_reauth"] += " R" in c
     return d
